@@ -691,6 +691,29 @@ def elemwise(fn, *arrs):
     return out if out.shape else out[()]
 
 # ----------------------------------------------------------------- structs
+class HostObj:
+    """Marker for host-side Python objects handed to the interpreted program (mock ElementTree elements, numeric
+    strings): attribute access and method calls go to the real object."""
+
+
+class NumStr(HostObj):
+    """A string that spells numbers (an XML attribute such as pos="1 0 0.5"): the interpreter carries the VALUES it
+    spells (exact or symbolic) instead of characters, through '%f' % x, ' '.join(...), .split(' ') and
+    np.fromstring(..., sep=' ')."""
+    def __init__(self, vals):
+        self.vals = list(vals)
+    def split(self, sep=None, maxsplit=-1):
+        return [NumStr([v]) for v in self.vals]
+    def strip(self, *a):
+        return self
+    def __bool__(self):
+        return len(self.vals) > 0
+    def __len__(self):
+        return len(self.vals)
+    def __repr__(self):
+        return 'NumStr(%r)' % (self.vals,)
+
+
 class Struct:
     def __init__(self, cls, fields, home=None):
         self.cls, self.f, self.home = cls, dict(fields), home
@@ -720,6 +743,14 @@ class ModRef:
 class ClsRef:
     def __init__(self, mod, node):
         self.mod, self.node = mod, node
+
+class _Continue(Exception):
+    pass
+
+
+class _Break(Exception):
+    pass
+
 
 class Ret(Exception):
     def __init__(self, v):
@@ -1351,6 +1382,9 @@ class Interp:
             if isinstance(op, ast.Add):
                 return l + r
             if isinstance(op, ast.Mod):
+                if isinstance(l, str) and l.startswith('%') and l[-1] in 'fgeds' and l.count('%') == 1 and \
+                        isinstance(r, (Rat, int, float, Fraction, np.generic)):
+                    return NumStr([Rat.lift(r)])
                 return '<fmt>'
         conc = (int, float, bool, Fraction)
         if isinstance(l, conc) and isinstance(r, conc) and not isinstance(op, ast.MatMult):
@@ -1527,6 +1561,19 @@ class Interp:
         if isinstance(v, dict):
             if a in ('get', 'items', 'keys', 'values', 'update'):
                 return ('bound', 'dict_' + a, v)
+        if isinstance(v, HostObj):
+            try:
+                val = getattr(v, a)
+            except AttributeError:
+                raise OutOfFragment('attr %s on %s' % (a, type(v).__name__))
+            return ('pybound', val) if callable(val) else val
+        if isinstance(v, str) and a == 'join':
+            def join(items, _sep=v):
+                items = list(items)
+                if items and all(isinstance(x, NumStr) for x in items):
+                    return NumStr([y for x in items for y in x.vals])
+                return _sep.join(items)
+            return ('pybound', join)
         if isinstance(v, (tuple, list)) and a in ('index', 'append', 'count', 'extend'):
             return ('bound', 'seq_' + a, v)
         if isinstance(v, (list, str, dict, set, range)) and not (isinstance(v, tuple) and v and isinstance(v[0], str) and len(v) == 3) and hasattr(v, a) and callable(getattr(v, a)):
@@ -1922,7 +1969,10 @@ class Interp:
             return acc
         if name in ('min', 'max'):
             return (min if name == 'min' else max)(*args)
-        if name == 'str': return str(args[0])
+        if name == 'str':
+            if isinstance(args[0], Rat) and not args[0].is_const():
+                return NumStr([args[0]])
+            return str(args[0])
         if name == 'any': return any(args[0])
         if name == 'all': return all(args[0])
         if name == 'set': return set(*args)
@@ -2113,14 +2163,29 @@ class Interp:
             c = self.ev(s.test, env, mod)
             if isinstance(c, Rat) and c.is_const():
                 c = c.constval() != 0
+            if isinstance(c, (HostObj, Fraction, float, np.bool_, np.integer)):
+                c = bool(c)
             if not isinstance(c, (bool, type(None), int, str, tuple, list, dict)):
                 raise OutOfFragment('branch on abstract value: ' + ast.unparse(s.test))
             self.block(s.body if c else s.orelse, env, mod); return
         if t is ast.For:
+            broke = False
             for item in self.ev(s.iter, env, mod):
                 self.assign(s.target, item, env, mod)
-                self.block(s.body, env, mod)
+                try:
+                    self.block(s.body, env, mod)
+                except _Continue:
+                    continue
+                except _Break:
+                    broke = True
+                    break
+            if not broke and s.orelse:
+                self.block(s.orelse, env, mod)
             return
+        if t is ast.Continue:
+            raise _Continue()
+        if t is ast.Break:
+            raise _Break()
         if t is ast.With:
             for it_ in s.items:
                 self.ev(it_.context_expr, env, mod)
@@ -2135,7 +2200,12 @@ class Interp:
                     raise OutOfFragment('while on abstract value: ' + ast.unparse(s.test))
                 if not c:
                     break
-                self.block(s.body, env, mod)
+                try:
+                    self.block(s.body, env, mod)
+                except _Continue:
+                    pass
+                except _Break:
+                    break
                 n_it += 1
                 if n_it > 100000:
                     raise OutOfFragment('while loop does not terminate')
@@ -2398,6 +2468,14 @@ def _arg_extreme(kind):
     return f
 
 
+def _allclose(a, b):
+    d = asarr(a) - asarr(b)
+    vals = [Rat.lift(v) for v in asarr(d).ravel()]
+    if all(v.is_const() for v in vals):
+        return all(abs(float(v.constval())) <= 1e-8 for v in vals)
+    return uf('allclose', d)
+
+
 def _select(condlist, choicelist, default=0):
     out = asarr(default)
     for c, v in reversed(list(zip(condlist, choicelist))):
@@ -2428,7 +2506,7 @@ JNP.update({
     'max': _reduce_minmax('max'), 'amax': _reduce_minmax('max'), 'min': _reduce_minmax('min'), 'amin': _reduce_minmax('min'),
     'argmax': _arg_extreme('max'), 'argmin': _arg_extreme('min'),
     'nan_to_num': lambda x, **k: elemwise(lambda v: P_where(JNP['isnan'](v), 0, v), x),
-    'allclose': lambda a, b, **k: uf('allclose', asarr(a) - asarr(b)),
+    'allclose': lambda a, b, **k: _allclose(a, b),
     'isclose': lambda a, b, **k: elemwise(lambda x, y: uf('allclose', Rat.lift(x) - Rat.lift(y)), a, b),
     'atleast_1d': lambda a: np.atleast_1d(asarr(a)), 'atleast_2d': lambda a: np.atleast_2d(asarr(a)),
     'broadcast_to': lambda a, shape: np.broadcast_to(asarr(a), shape).copy(),
@@ -2444,6 +2522,16 @@ JNP.update({
     'uint32': lambda x: x, 'uint8': lambda x: x, 'int64': lambda x: x, 'int8': lambda x: x, 'uint64': lambda x: x, 'float16': lambda x: x,
     'linspace': lambda a, b, n=50, **k: np.array([Rat.lift(exact(float(v))) for v in np.linspace(float(Rat.lift(a).constval()), float(Rat.lift(b).constval()), int(n))], dtype=object),
 })
+def _fromstring(x, dtype=None, count=-1, sep=' ', **kw):
+    if isinstance(x, NumStr):
+        return asarr(list(x.vals))
+    if isinstance(x, str):
+        toks = [t for t in x.replace(',', ' ').split() if t]
+        return asarr([Rat.lift(exact(float(t))) for t in toks])
+    raise OutOfFragment('np.fromstring of %s' % type(x).__name__)
+
+
+JNP['fromstring'] = _fromstring
 JNP['linalg']['det'] = lambda a: _det(asarr(a))
 
 
